@@ -2074,3 +2074,207 @@ Proof.
   - destruct IH as (I & L). unfold lmstep in E. pose proof (mstep_outcome (fst l) s (snd l) I) as Q.
     rewrite E in Q. destruct Q as (I' & L'). split; auto. congruence.
 Qed.
+
+(** * Consequences of the invariant (the statements of C05) *)
+Definition owners (s : st) (d : nat) : N := cnt (hp None d) 0 (objs s).
+Definition weaks (s : st) (d : nat) : N := cnt (wp None d) 0 (objs s).
+Definition managed (s : st) (m : nat) : Prop :=
+  exists d D, lookup d (datas s) = Some D /\ gp (ugp (dup D)) = Some m.
+Definition uowned (s : st) (m : nat) : Prop := 0 < cnt (upr m) 0 (objs s).
+
+(** the bookkeeping block exists exactly while something refers to it *)
+Lemma data_iff_referenced s d : inv s -> (lookup d (datas s) <> None <-> 0 < owners s d + weaks s d).
+Proof.
+  intros I. unfold owners, weaks. split.
+  - destruct (lookup d (datas s)) as [D|] eqn:L; [|congruence]. intros _.
+    rewrite <- (inv_soft _ _ I d D L). apply (inv_pos _ _ I d D L).
+  - intros P L. destruct (inv_nodata _ _ I d L). lia.
+Qed.
+
+(** the managed memory exists exactly while the block has an owner *)
+Lemma managed_iff_owner s d D :
+  inv s -> lookup d (datas s) = Some D ->
+  (0 < owners s d <-> exists m, gp (ugp (dup D)) = Some m /\ is_live (al s) m = true).
+Proof.
+  intros I L. unfold owners. rewrite <- (inv_hard _ _ I d D L). split.
+  - intros P. destruct (inv_mem _ _ I d D L P) as (m & M1 & M2 & _). eauto.
+  - intros (m & M & _). destruct (N.eq_dec (hard D) 0) as [Z|Z]; [|lia].
+    rewrite (inv_hard0 _ _ I d D L Z) in M. discriminate.
+Qed.
+
+(** a block is live iff it is a referenced bookkeeping block, the memory of
+    a block with an owner, or held by a unique pointer: nothing leaks,
+    nothing owned is dead *)
+Theorem live_iff_owned s b :
+  inv s -> (is_live (al s) b = true <-> lookup b (datas s) <> None \/ managed s b \/ uowned s b).
+Proof.
+  intros I. split; [apply (inv_noleak _ _ I)|].
+  intros [H|[(d & D & L & M)|H]].
+  - destruct (lookup b (datas s)) as [D|] eqn:L; [|congruence]. apply (inv_live _ _ I b D L).
+  - destruct (managed_live None s d D b I L M) as (_ & X & _). auto.
+  - destruct (upr_live None s b I H). auto.
+Qed.
+
+(** every block ever allocated is either live or was released exactly once;
+    no free of a dead or foreign pointer ever happened; every clear callback
+    got live memory that was released immediately afterwards *)
+Theorem released_exactly_once s :
+  inv s ->
+  NoDup (freed (log s)) /\
+  (forall b, In b (freed (log s)) <-> (b < next (al s))%nat /\ is_live (al s) b = false) /\
+  (forall b, ~ In (MA (EvBadFree b)) (log s)) /\
+  ctf (log s).
+Proof. intros I. destruct (inv_log _ _ I) as (_ & A & B & C & D). auto. Qed.
+
+(** in [ctf] logs a clear callback is followed by the release of its argument *)
+Lemma ctf_clear_followed l1 p t l2 :
+  ctf (l1 ++ MClear p t :: l2) -> exists m l1', p = Some m /\ l1 = l1' ++ [MA (EvFree m)].
+Proof.
+  remember (length l1) as n eqn:Ln. revert l1 Ln p t l2.
+  induction n as [n IH] using lt_wf_ind. intros l1 Ln p t l2 H.
+  destruct l1 as [|e r]; [cbn in H; tauto|].
+  destruct r as [|e' r'].
+  - cbn [app] in H. destruct e as [[]|]; cbn in H; try tauto. destruct H as (-> & _). exists b, []. auto.
+  - destruct e as [a|]; [|cbn in H; tauto].
+    assert (C : (exists q u, e' = MClear q u /\ ctf (r' ++ MClear p t :: l2)) \/ ctf ((e' :: r') ++ MClear p t :: l2)).
+    { destruct a; cbn [app ctf] in H; auto. destruct e' as [a'|q u]; [right; exact H|].
+      left. exists q, u. split; auto. apply H. }
+    destruct C as [(q & u & -> & C)|C].
+    + destruct (IH (length r')) with (l1 := r') (p := p) (t := t) (l2 := l2) as (m & l1' & -> & E); auto.
+      { subst n. cbn. lia. }
+      exists m, (MA a :: MClear q u :: l1'). rewrite E. auto.
+    + destruct (IH (length (e' :: r'))) with (l1 := e' :: r') (p := p) (t := t) (l2 := l2) as (m & l1' & -> & E); auto.
+      { subst n. cbn. lia. }
+      exists m, (MA a :: l1'). rewrite E. auto.
+Qed.
+
+Theorem no_leak s :
+  inv s -> (forall i o, nth_error (objs s) i = Some o -> tgt i o = None) -> live (al s) = [].
+Proof.
+  intros I E.
+  assert (Z : forall p : nat -> obj -> bool, (forall j o, tgt j o = None -> p j o = false) -> cnt p 0 (objs s) = 0).
+  { intros p H. apply cnt_false. intros j o E'. cbn [Nat.add]. apply H. eauto. }
+  assert (ZH : forall d, owners s d = 0) by (intros d; apply Z; intros j o T; unfold hp; rewrite T; cbn; apply andb_false_r).
+  assert (ZW : forall d, weaks s d = 0) by (intros d; apply Z; intros j o T; unfold wp; rewrite T; cbn; apply andb_false_r).
+  assert (ZU : forall d, cnt (upr d) 0 (objs s) = 0) by (intros d; apply Z; intros j o T; unfold upr; rewrite T; cbn; apply andb_false_r).
+  destruct (live (al s)) as [|(b & sz) r] eqn:L; auto. exfalso.
+  assert (LB : is_live (al s) b = true) by (apply is_live_In; rewrite L; left; auto).
+  apply (live_iff_owned s b I) in LB. destruct LB as [H|[(d & D & Ld & M)|H]].
+  - apply (data_iff_referenced s b I) in H. rewrite ZH, ZW in H. lia.
+  - destruct (managed_live None s d D b I Ld M) as (P & _). rewrite (inv_hard _ _ I d D Ld) in P. fold (owners s d) in P. rewrite ZH in P. lia.
+  - unfold uowned in H. rewrite ZU in H. lia.
+Qed.
+
+(** co-owners see the same live memory *)
+Theorem get_agree s i j oi oj d :
+  inv s -> nth_error (objs s) i = Some oi -> nth_error (objs s) j = Some oj ->
+  ownerk (okind oi) = true -> ownerk (okind oj) = true -> wf_obj i oi = true -> wf_obj j oj = true ->
+  gp (ogp oi) = Some d -> gp (ogp oj) = Some d ->
+  exists m, shared_get s i = Ok (Some m) /\ shared_get s j = Ok (Some m) /\ is_live (al s) m = true.
+Proof.
+  intros I Ei Ej Ki Kj Wi Wj Gi Gj.
+  destruct (shared_get_spec s i oi I Ei Ki Wi) as (p & R & S). rewrite Gi in S.
+  destruct (shared_get_spec s j oj I Ej Kj Wj) as (q & R' & S'). rewrite Gj in S'.
+  destruct S as (D & m & L & M & -> & Lv). destruct S' as (D' & m' & L' & M' & -> & _).
+  assert (D' = D) by congruence. subst. assert (m' = m) by congruence. subst. eauto.
+Qed.
+
+(** cstl_weak_ptr_lock yields an owner iff one exists once the target has let go *)
+Theorem lock_iff s w x ow ox :
+  inv s -> nth_error (objs s) w = Some ow -> nth_error (objs s) x = Some ox ->
+  okind ow = KW -> ownerk (okind ox) = true -> wf_obj w ow = true -> wf_obj x ox = true ->
+  exists s', weak_lock s w x = Ok s' /\ inv s' /\
+    forall d, ptr_at s' x = Some d <->
+              gp (ogp ow) = Some d /\ 0 < cnt (hp None d) 0 (upd (objs s) x (ptr_obj x ox None)).
+Proof.
+  intros I Ew Ex Kw Kx Ww Wx.
+  destruct (weak_lock_spec s w x ow ox I Ew Ex Kw Kx Ww Wx) as (s' & s1 & R & I' & _ & _ & O1 & O').
+  exists s'. split; auto. split; auto. intros d. unfold ptr_at. rewrite O'.
+  rewrite nth_upd_same with (o := ox) by auto. cbn [ogp ptr_obj gp]. rewrite O1.
+  destruct (gp (ogp ow)) as [d'|]; [|split; [discriminate|intros (? & _); discriminate]].
+  destruct (N.ltb_spec 0 (cnt (hp None d') 0 (upd (objs s) x (ptr_obj x ox None)))).
+  - split; [intros [= <-]; auto|intros ([= <-] & _); auto].
+  - split; [discriminate|intros ([= <-] & P); lia].
+Qed.
+
+(** cstl_shared_ptr_unique: true exactly when no other shared or weak
+    reference exists (fewer than 2^31 pool objects, see the [int] conversion) *)
+Theorem unique_iff s i o :
+  inv s -> nth_error (objs s) i = Some o -> ownerk (okind o) = true -> wf_obj i o = true ->
+  2 * N.of_nat (length (objs s)) < 4294967296 ->
+  exists b, shared_unique s i = Ok b /\
+    (b = true <-> match gp (ogp o) with None => True | Some d => owners s d + weaks s d = 1 end).
+Proof.
+  intros I E K W LEN. destruct (shared_unique_spec s i o I E K W) as (b & R & S). exists b. split; auto.
+  destruct (gp (ogp o)) as [d|]; [|subst; tauto].
+  pose proof (cnt_le_length (hp None d) 0 (objs s)). pose proof (cnt_le_length (wp None d) 0 (objs s)).
+  unfold owners, weaks. rewrite S, N.mod_small by lia. apply N.eqb_eq.
+Qed.
+
+(** ** failed allocations *)
+Section AllocFail.
+  Variable ok : nat -> N -> bool.
+
+  (** cstl_shared_ptr_alloc: the target first lets go; then either both
+      requests are granted and the object owns a fresh block, or the object
+      is empty and exactly the blocks live after the reset are live (a
+      half-built bookkeeping block has been released again) *)
+  Theorem shared_alloc_spec s i o sz cb :
+    inv s -> nth_error (objs s) i = Some o -> ownerk (okind o) = true -> wf_obj i o = true ->
+    exists s1 s', shared_reset s i = Ok s1 /\ inv s1 /\ shared_alloc ok s i sz cb = Ok s' /\ inv s' /\
+      ((exists d m a1, 0 < sz /\ malloc ok (al s1) DATA_SZ = (a1, Some d) /\ malloc ok a1 sz = (al s', Some m) /\
+          objs s' = upd (objs s) i (ptr_obj i o (Some d)) /\
+          lookup d (datas s') = Some (mkD 1 1 (mkU (mkG (AData d) (Some m)) cb)) /\ descs s' = descs s1)
+       \/
+       (objs s' = upd (objs s) i (ptr_obj i o None) /\ (forall b, is_live (al s') b = is_live (al s1) b) /\
+        (forall b, is_live (al s1) b = true -> lookup b (descs s') = lookup b (descs s1)) /\
+        (sz = 0 \/ snd (malloc ok (al s1) DATA_SZ) = None \/
+         exists a1 d, malloc ok (al s1) DATA_SZ = (a1, Some d) /\ snd (malloc ok a1 sz) = None))).
+  Proof.
+    intros I E K W. destruct (shared_reset_spec s i o I E K W) as (s1 & R1 & I1 & O1).
+    assert (E1 : nth_error (objs s1) i = Some (ptr_obj i o None)) by (rewrite O1; eapply nth_upd_same; eauto).
+    destruct (shared_alloc_tail_spec ok s1 i (ptr_obj i o None) sz cb I1 E1) as (s' & R & I' & C); auto.
+    { unfold tgt. rewrite wf_ptr_obj. reflexivity. }
+    exists s1, s'. split; auto. split; auto. split; [rewrite shared_alloc_unfold, R1; exact R|]. split; auto.
+    destruct C as [(d & m & a1 & C1 & C2 & C3 & C4 & C5 & C6)|(C1 & C2 & C3 & C4)]; [left|right].
+    - exists d, m, a1. rewrite C4, O1, upd_upd, ptr_obj_ptr_obj. auto 10.
+    - rewrite C1, O1. auto.
+  Qed.
+
+  (** whenever one of the two requests of cstl_shared_ptr_alloc is refused,
+      the failure branch is the one taken *)
+  Theorem shared_alloc_refused s i o sz cb s1 :
+    inv s -> nth_error (objs s) i = Some o -> ownerk (okind o) = true -> wf_obj i o = true ->
+    shared_reset s i = Ok s1 ->
+    (snd (malloc ok (al s1) DATA_SZ) = None \/
+     exists a1 d, malloc ok (al s1) DATA_SZ = (a1, Some d) /\ snd (malloc ok a1 sz) = None) ->
+    exists s', shared_alloc ok s i sz cb = Ok s' /\ inv s' /\
+      objs s' = upd (objs s) i (ptr_obj i o None) /\ (forall b, is_live (al s') b = is_live (al s1) b).
+  Proof.
+    intros I E K W R1 F. destruct (shared_alloc_spec s i o sz cb I E K W) as (s1' & s' & R1' & _ & R & I' & C).
+    assert (s1' = s1) by congruence. subst s1'. exists s'. split; auto. split; auto.
+    destruct C as [(d & m & a1 & _ & M1 & M2 & _)|(C1 & C2 & _)]; auto.
+    exfalso. destruct F as [F|(a1' & d' & M1' & F)].
+    - rewrite M1 in F. discriminate.
+    - rewrite M1 in M1'. injection M1' as <- <-. rewrite M2 in F. discriminate.
+  Qed.
+
+  (** cstl_unique_ptr_alloc with a refused request: the old memory has been
+      destroyed, the object is empty, no block was added *)
+  Theorem unique_alloc_refused s u o sz cb s1 :
+    inv s -> nth_error (objs s) u = Some o -> okind o = KU -> wf_obj u o = true ->
+    unique_reset s (ASlot u) = Ok s1 -> snd (malloc ok (al s1) sz) = None ->
+    exists s', unique_alloc ok s (ASlot u) sz cb = Ok s' /\ inv s' /\
+      objs s' = upd (objs s) u (uobj u o None None) /\ live (al s') = live (al s1).
+  Proof.
+    intros I E K W R F. destruct (unique_reset_pool_spec s u o I E K W) as (s1' & R' & I1 & O1 & _).
+    assert (s1' = s1) by congruence. subst s1'.
+    unfold unique_alloc. rewrite R. cbn [bind]. destruct (N.ltb_spec 0 sz).
+    - unfold do_malloc. destruct (malloc ok (al s1) sz) as (a' & r) eqn:M. cbn in F. subst r.
+      eexists. split; [reflexivity|]. unfold add_log, set_al. cbn [al objs datas descs exts log].
+      pose proof (inv_log _ _ I1) as LI. pose proof (linv_malloc ok _ _ _ _ _ LI M) as LI1.
+      pose proof (malloc_none ok _ _ _ M) as (LL & _). split; [|auto].
+      apply pinv_ext; auto. intros b. unfold is_live. rewrite LL. reflexivity.
+    - exists s1. auto.
+  Qed.
+End AllocFail.
